@@ -1,15 +1,21 @@
-(* C20/Model.v — executable, integer-only model of mpf/modes/credits/code/credits.py (credits mode) together
-   with the small part of mpf/modes/game/code/game.py it interacts with (start request, player add gate,
-   ball/player rotation, game end).  Definitions only; proofs are in Lemmas.v.
+(* C20/Model.v — executable model of mpf/modes/credits/code/credits.py (credits mode) together with the small
+   parts of mpf/modes/game/code/game.py (start request, player add gate, ball/player rotation, game end),
+   mpf/core/machine_vars.py (persistence of credit_units: persist flag, expire_secs, timeout, load at boot) and
+   mpf/core/settings_controller.py (read path of the free_play setting) it interacts with.
+   Definitions only; proofs are in Lemmas.v, Formula.v, FloatLemmas.v.
 
-   Money is counted in "ticks" of 1/8 currency unit (every value the harness generates is k * 0.125, so every
-   float operation of the implementation is exact); time in integer milliseconds.
+   Money values of the configuration are integers in minor units, v / c_scale currency units (8: ticks of 1/8,
+   every float operation of the implementation is then exact; 100: cents, the doubles are inexact).  The unit /
+   price / tier computation is performed with binary64 arithmetic on exact rationals (Float.v); from there on the
+   model counts integer credit units.  Time in integer milliseconds.
 
-   The model is of the code WITH the three fixes of /verif/fixes/C20-*.patch applied
-   (cap clamps once; credit units are computed when the mode boots in free play; enable_credit_play does not
-   register the coin/credit handlers twice).  [add_units_orig] keeps the unpatched cap logic for the
-   refutation witness. *)
+   The model is of the code WITH the fixes of /verif/fixes/C20-*.patch applied (cap clamps once; credit units are
+   computed when the mode boots in free play; enable_credit_play does not register the coin/credit handlers twice;
+   value / unit is snapped to the nearest int when it is one up to float noise).  [add_units_orig] keeps the
+   unpatched cap logic and [derive_x false] the unpatched float conversion, for the refutation witnesses. *)
 From Common Require Import Prelude.
+From Coq Require Import QArith.
+From C20 Require Import Float.
 Open Scope Z_scope.
 
 (* ---- configuration (section credits: of the machine config) ---------------------------------- *)
@@ -21,14 +27,16 @@ Record cfg := mkCfg {
   c_all_ms : Z;              (* credit_expiration_time, 0 = off *)
   c_evq : list Z;            (* events[j].credits in quarter credits *)
   c_boot_fp : bool;          (* free_play setting at boot *)
-  c_bpg : Z                  (* game: balls_per_game *)
+  c_bpg : Z;                 (* game: balls_per_game *)
+  c_persist_ms : Z;          (* persist_credits_while_off_time in ms, 0 = off *)
+  c_scale : Z                (* money values are v / c_scale currency units: 8 = ticks of 1/8, 100 = cents *)
 }.
 
 Definition max_players : Z := 4.    (* game: max_players default *)
 Definition op_ms : Z := 125.        (* virtual time the rig lets pass after every operation *)
 
 (* _calculate_credit_units *)
-Definition first_price (c : cfg) : Z := match c_tiers c with [] => 8 | (p, _) :: _ => p end.
+Definition first_price (c : cfg) : Z := match c_tiers c with [] => c_scale c | (p, _) :: _ => p end.
 Definition min_value (c : cfg) : Z :=
   match c_coins c with [] => first_price c | x :: r => fold_left Z.min r x end.
 Definition credit_unit (c : cfg) : Z :=
@@ -66,21 +74,68 @@ Fixpoint tbl (g : Z -> Z) (n : nat) (u old : Z) : list Z :=
 Definition mk_table (rts : list (Z * Z)) : list Z :=
   tbl (greedy rts) (S (Z.to_nat (wrap_of rts))) 0 0.
 
+(* ---- the same computation with the arithmetic the code really performs (binary64, Float.v) ----------
+   [fx] = true: FIXED code (fixes/C20-decimal-prices-float-truncation.patch: value / unit is snapped to the
+   nearest int when it is one up to float noise); false: the unfixed code (refutation witness only). *)
+Definition to_units (fx : bool) (v cu : Q) : Q := if fx then to_units_fixed v cu else to_units_orig v cu.
+
+Definition credit_unit_q (c : cfg) : Q :=
+  let m := fval (c_scale c) (min_value c) in let p := fval (c_scale c) (first_price c) in
+  if qeq m p then m
+  else if qlt m p then (let u := fsub p m in if qlt m u then m else u)
+  else (let u := fsub m p in if qlt p u then p else u).
+
+Definition upg_q (fx : bool) (c : cfg) : Z :=
+  trunc (to_units fx (fval (c_scale c) (first_price c)) (credit_unit_q c)).
+
+(* credit_units = _to_credit_units(price); bonus = upg * credits - credit_units (float when credit_units is one);
+   "W > credit_units"; int(credit_units), int(bonus) *)
+Fixpoint keep_tiers_q (fx : bool) (S : Z) (cu : Q) (upg w : Z) (ts : list (Z * Z)) : list (Z * Z) :=
+  match ts with
+  | [] => []
+  | (p, cr) :: r =>
+      let x := to_units fx (fval S p) cu in
+      if qlt x (inject_Z w) then keep_tiers_q fx S cu upg w r
+      else (trunc x, trunc (fsub (inject_Z (upg * cr)) x)) :: keep_tiers_q fx S cu upg (trunc x) r
+  end.
+
+(* _credit_switch_callback: value / unit has to be an int (otherwise AssertionError: -1 here, outside the domain) *)
+Definition coin_units_q (fx : bool) (S : Z) (cu : Q) (v : Z) : Z :=
+  let x := to_units fx (fval S v) cu in if q_is_int x then trunc x else -1.
+
 (* ---- derived constants ------------------------------------------------------------------------ *)
 Record dcfg := mkD {
-  d_cu : Z; d_upg : Z; d_rkt : list (Z * Z); d_W : Z; d_table : list Z; d_maxu : Z;
+  d_cuq : Q; d_upg : Z; d_rkt : list (Z * Z); d_W : Z; d_table : list Z; d_maxu : Z;
   d_coin_units : list Z; d_coin_ticks : list Z; d_ev_units : list Z; d_ev_int : list Z;
-  d_frac_ms : Z; d_all_ms : Z; d_boot_fp : bool; d_bpg : Z
+  d_frac_ms : Z; d_all_ms : Z; d_boot_fp : bool; d_bpg : Z; d_persist_ms : Z
 }.
 
-Definition derive (c : cfg) : dcfg :=
+Definition derive_x (fx : bool) (c : cfg) : dcfg :=
+  let cu := credit_unit_q c in
+  let upg := upg_q fx c in
+  let rkt := rev (keep_tiers_q fx (c_scale c) cu upg 0 (c_tiers c)) in
+  mkD cu upg rkt (wrap_of rkt) (mk_table rkt) (c_max c * upg)
+      (map (coin_units_q fx (c_scale c) cu) (c_coins c)) (c_coins c)
+      (map (fun q => q * upg / 4) (c_evq c)) (map (fun q => q / 4) (c_evq c))
+      (c_frac_ms c) (c_all_ms c) (c_boot_fp c) (c_bpg c) (c_persist_ms c).
+
+Definition derive : cfg -> dcfg := derive_x true.
+
+(* the ideal computation in exact arithmetic on minor units (what the configuration means) *)
+Definition derive_ideal (c : cfg) : dcfg :=
   let cu := credit_unit c in
   let upg := units_per_game c in
   let rkt := rev (keep_tiers cu upg 0 (c_tiers c)) in
-  mkD cu upg rkt (wrap_of rkt) (mk_table rkt) (c_max c * upg)
-      (map (fun v => v / cu) (c_coins c)) (c_coins c)
+  mkD (Qmake cu (Z.to_pos (c_scale c))) upg rkt (wrap_of rkt) (mk_table rkt) (c_max c * upg)
+      (map (fun v => if v mod cu =? 0 then v / cu else -1) (c_coins c)) (c_coins c)
       (map (fun q => q * upg / 4) (c_evq c)) (map (fun q => q / 4) (c_evq c))
-      (c_frac_ms c) (c_all_ms c) (c_boot_fp c) (c_bpg c).
+      (c_frac_ms c) (c_all_ms c) (c_boot_fp c) (c_bpg c) (c_persist_ms c).
+
+(* what has to agree between the two: everything the run depends on (the unit itself may differ in the last bit) *)
+Definition zz_eqb (a b : Z * Z) : bool := (fst a =? fst b) && (snd a =? snd b).
+Definition dcore_eqb (a b : dcfg) : bool :=
+  (d_upg a =? d_upg b) && (d_W a =? d_W b) && zs_eqb (d_table a) (d_table b) && (d_maxu a =? d_maxu b)
+  && zs_eqb (d_coin_units a) (d_coin_units b) && list_eqb zz_eqb (d_rkt a) (d_rkt b).
 
 (* the model's stated domain: every coin value, tier price is a whole number of credit units, event credits
    a whole number of units (otherwise the code raises "Credits units need to be ints") *)
@@ -96,38 +151,64 @@ Record st := mkSt {
   units : Z;            (* machine var credit_units *)
   tc : Z;               (* credit_units_for_pricing_tiers *)
   flag : bool;          (* reset_pricing_tier_count_this_game *)
-  fp : bool;            (* setting free_play *)
+  fp : bool;            (* machine var free_play (the stored setting) *)
   now : Z;              (* ms *)
   dfrac : option Z;     (* deadline of delay clear_fractional_credits *)
   dall : option Z;      (* deadline of delay clear_all_credits *)
   ingame : bool; npl : Z; cpl : Z; cball : Z;          (* game: running, num_players, player.number, player.ball *)
-  a_coins : Z; a_earn : Z; a_paid : Z; a_svc : Z; a_evaw : Z   (* earnings audits *)
+  a_coins : Z; a_earn : Z; a_paid : Z; a_svc : Z; a_evaw : Z;   (* earnings audits (data manager 'earnings') *)
+  ploaded : bool;       (* credit_units was loaded from disk at this boot (persist = True, no expire_secs yet) *)
+  pexp : option Z       (* credit_units: 'timeout' = last write + persist_credits_while_off_time, once configured *)
 }.
 
-Definition init (d : dcfg) : st :=
-  mkSt 0 0 false (d_boot_fp d) 0 None None false 0 0 0 0 0 0 0 0.
-
 Definition set_credit (s : st) (u c : Z) : st :=
-  mkSt u c (flag s) (fp s) (now s) (dfrac s) (dall s) (ingame s) (npl s) (cpl s) (cball s)
-       (a_coins s) (a_earn s) (a_paid s) (a_svc s) (a_evaw s).
+  mkSt u c (flag s) (fp s) (now s) (dfrac s) (dall s) (ingame s) (npl s) (cpl s) (cball s) (a_coins s) (a_earn s) (a_paid s) (a_svc s) (a_evaw s) (ploaded s) (pexp s).
 Definition set_flag (s : st) (f : bool) : st :=
-  mkSt (units s) (tc s) f (fp s) (now s) (dfrac s) (dall s) (ingame s) (npl s) (cpl s) (cball s)
-       (a_coins s) (a_earn s) (a_paid s) (a_svc s) (a_evaw s).
+  mkSt (units s) (tc s) f (fp s) (now s) (dfrac s) (dall s) (ingame s) (npl s) (cpl s) (cball s) (a_coins s) (a_earn s) (a_paid s) (a_svc s) (a_evaw s) (ploaded s) (pexp s).
 Definition set_fp (s : st) (f : bool) : st :=
-  mkSt (units s) (tc s) (flag s) f (now s) (dfrac s) (dall s) (ingame s) (npl s) (cpl s) (cball s)
-       (a_coins s) (a_earn s) (a_paid s) (a_svc s) (a_evaw s).
+  mkSt (units s) (tc s) (flag s) f (now s) (dfrac s) (dall s) (ingame s) (npl s) (cpl s) (cball s) (a_coins s) (a_earn s) (a_paid s) (a_svc s) (a_evaw s) (ploaded s) (pexp s).
 Definition set_now (s : st) (t : Z) : st :=
-  mkSt (units s) (tc s) (flag s) (fp s) t (dfrac s) (dall s) (ingame s) (npl s) (cpl s) (cball s)
-       (a_coins s) (a_earn s) (a_paid s) (a_svc s) (a_evaw s).
+  mkSt (units s) (tc s) (flag s) (fp s) t (dfrac s) (dall s) (ingame s) (npl s) (cpl s) (cball s) (a_coins s) (a_earn s) (a_paid s) (a_svc s) (a_evaw s) (ploaded s) (pexp s).
 Definition set_timers (s : st) (f a : option Z) : st :=
-  mkSt (units s) (tc s) (flag s) (fp s) (now s) f a (ingame s) (npl s) (cpl s) (cball s)
-       (a_coins s) (a_earn s) (a_paid s) (a_svc s) (a_evaw s).
+  mkSt (units s) (tc s) (flag s) (fp s) (now s) f a (ingame s) (npl s) (cpl s) (cball s) (a_coins s) (a_earn s) (a_paid s) (a_svc s) (a_evaw s) (ploaded s) (pexp s).
 Definition set_game (s : st) (g : bool) (n p b : Z) : st :=
-  mkSt (units s) (tc s) (flag s) (fp s) (now s) (dfrac s) (dall s) g n p b
-       (a_coins s) (a_earn s) (a_paid s) (a_svc s) (a_evaw s).
+  mkSt (units s) (tc s) (flag s) (fp s) (now s) (dfrac s) (dall s) g n p b (a_coins s) (a_earn s) (a_paid s) (a_svc s) (a_evaw s) (ploaded s) (pexp s).
 Definition set_audit (s : st) (c e p sv ev : Z) : st :=
-  mkSt (units s) (tc s) (flag s) (fp s) (now s) (dfrac s) (dall s) (ingame s) (npl s) (cpl s) (cball s)
-       c e p sv ev.
+  mkSt (units s) (tc s) (flag s) (fp s) (now s) (dfrac s) (dall s) (ingame s) (npl s) (cpl s) (cball s) c e p sv ev (ploaded s) (pexp s).
+Definition set_pexp (s : st) (x : option Z) : st :=
+  mkSt (units s) (tc s) (flag s) (fp s) (now s) (dfrac s) (dall s) (ingame s) (npl s) (cpl s) (cball s) (a_coins s) (a_earn s) (a_paid s) (a_svc s) (a_evaw s) (ploaded s) x.
+
+(* MachineVariables.set_machine_var('credit_units', ..) at time [t]: once the variable has expire_secs
+   (configure_machine_var in enable_credit_play) every write, changed or not, moves its timeout *)
+Definition touch (d : dcfg) (s : st) (t : Z) : st :=
+  set_pexp s (match pexp s with Some _ => Some (t + d_persist_ms d) | None => None end).
+
+(* SettingsController.get_setting_value: the stored machine variable if there is one, else the default *)
+Definition read_setting (default : bool) (stored : option bool) : bool :=
+  match stored with Some v => v | None => default end.
+
+(* enable_credit_play: configure_machine_var(credit_units, persist, expire_secs) when persistence is configured,
+   then set_machine_var(credit_units, <same value>); setting free_play := False *)
+Definition enable_credit (d : dcfg) (s : st) : st :=
+  set_pexp (set_fp s false) (if 0 <? d_persist_ms d then Some (now s + d_persist_ms d) else pexp s).
+
+(* power on at time [t] with the data files [disk] left by the previous run (None = first boot):
+   load_machine_vars skips an entry whose 'expire' is < the current time; tier counter, flag, delays and the game
+   are not persistent; earnings and the free_play setting are.  The boot itself takes 1 ms of virtual time. *)
+Definition on_disk (s : st) : bool := ploaded s || match pexp s with Some _ => true | None => false end.
+Definition survives (s : st) (t : Z) : bool :=
+  on_disk s && match pexp s with Some e => negb (e <? t) | None => true end.
+
+Definition power_on (d : dcfg) (disk : option st) (t : Z) : st :=
+  let s0 :=
+    match disk with
+    | None => mkSt 0 0 false (read_setting (d_boot_fp d) None) t None None false 0 0 0 0 0 0 0 0 false None
+    | Some s => mkSt (if survives s t then units s else 0) 0 false (read_setting (d_boot_fp d) (Some (fp s))) t
+                     None None false 0 0 0 (a_coins s) (a_earn s) (a_paid s) (a_svc s) (a_evaw s) (survives s t) None
+    end in
+  set_now (if fp s0 then s0 else enable_credit d s0) (t + 1).
+
+Definition init (d : dcfg) : st := power_on d None (-1).
 
 (* ---- _add_credit_units ---------------------------------------------------------------------- *)
 Definition tget (d : dcfg) (u : Z) : Z := nth (Z.to_nat u) (d_table d) 0.
@@ -151,10 +232,13 @@ Definition add_over (d : dcfg) (s : st) (n : Z) (tiering : bool) : bool :=      
 Definition add_doit (d : dcfg) (s : st) : bool :=                               (* credits_added posted *)
   (d_maxu d <=? 0) || (units s <? d_maxu d).
 
+Definition touch_if (b : bool) (d : dcfg) (s : st) (t : Z) : st := if b then touch d s t else s.
+
 Definition add_units (d : dcfg) (s : st) (n : Z) (tiering : bool) : st :=
   let total := snd (add_ct d s n tiering) in
   let total' := if add_over d s n tiering then d_maxu d else total in      (* fixed code: clamp once *)
-  set_credit s (if add_doit d s then total' else units s) (fst (add_ct d s n tiering)).
+  touch_if (add_doit d s) d
+    (set_credit s (if add_doit d s then total' else units s) (fst (add_ct d s n tiering))) (now s).
 
 (* the unpatched code: first "if" stores the maximum, the independent second "if" overwrites it *)
 Definition add_units_orig (d : dcfg) (s : st) (n : Z) (tiering : bool) : st :=
@@ -173,16 +257,26 @@ Definition clear_all (s : st) : st := set_credit s 0 0.
 Definition due (t : option Z) (n : Z) : bool := match t with Some x => x <=? n | None => false end.
 
 (* let time pass until [t]; the two delays fire at most once each (final state does not depend on their order) *)
+Definition dl (o : option Z) : Z := match o with Some x => x | None => 0 end.
+
+(* each callback runs at its own deadline (that is the time of its write to credit_units); when both are due the
+   later deadline is the last write *)
 Definition advance (d : dcfg) (s : st) (t : Z) : st :=
-  let s1 := if due (dfrac s) t then set_timers (clear_frac d s) None (dall s) else s in
-  let s2 := if due (dall s1) t then set_timers (clear_all s1) (dfrac s1) None else s1 in
+  let s1 := if due (dfrac s) t then set_timers (touch d (clear_frac d s) (dl (dfrac s))) None (dall s) else s in
+  let s2 := if due (dall s1) t
+            then set_timers (touch d (clear_all s1)
+                                   (if due (dfrac s) t then Z.max (dl (dfrac s)) (dl (dall s1)) else dl (dall s1)))
+                            (dfrac s1) None
+            else s1 in
   set_now s2 t.
 
 (* ---- operations ----------------------------------------------------------------------------- *)
 Inductive op :=
 | Coin (k : nat) | Service | CreditEv (j : nat) | Start | EndBall | EndGame | Wait (ms : Z)
 | ToggleFree | EnableFree | EnableCredit | ResetCredits | ResetEarnings
-| StartBurst (n : nat).   (* n start presses inside one run of the event queue *)
+| StartBurst (n : nat)    (* n start presses inside one run of the event queue *)
+| Reboot (off : Z)        (* power off, power on [off] ms later with the data files written so far *)
+| StartHeld (n : nat) (w : Z).   (* n presses in one event-queue run while player_adding is held for w ms *)
 
 Record evs := mkEvs { e_not_enough : Z; e_max : Z; e_added : Z; e_accepted : Z }.
 Definition no_evs := mkEvs 0 0 0 0.
@@ -200,7 +294,7 @@ Definition add_player (d : dcfg) (s : st) : st :=
   if fp s then join_game s
   else if affordable d s then
     let s2 := with_audit (join_game s) 0 0 1 0 0 in
-    set_credit s2 (Z.max 0 (units s2 - d_upg d)) (tc s2)
+    touch d (set_credit s2 (Z.max 0 (units s2 - d_upg d)) (tc s2)) (now s)
   else s.
 
 Definition end_game (d : dcfg) (s : st) : st :=
@@ -231,7 +325,8 @@ Definition start_ev (d : dcfg) (s : st) (presses : Z) : evs :=
    player_add_request is checked by _player_add_request against the same balance (the deduction happens later, on
    player_added, and is floored at 0): all n players are added or none. *)
 Definition paid_join (d : dcfg) (s : st) : st :=
-  let s2 := with_audit (join_game s) 0 0 1 0 0 in set_credit s2 (Z.max 0 (units s2 - d_upg d)) (tc s2).
+  let s2 := with_audit (join_game s) 0 0 1 0 0 in
+  touch d (set_credit s2 (Z.max 0 (units s2 - d_upg d)) (tc s2)) (now s).
 Fixpoint iter_st (n : nat) (f : st -> st) (s : st) : st := match n with O => s | S k => iter_st k f (f s) end.
 Definition burst_st (d : dcfg) (s : st) (n : nat) : st :=
   match n with
@@ -243,6 +338,33 @@ Definition burst_st (d : dcfg) (s : st) (n : nat) : st :=
         else if affordable d s then iter_st n (paid_join d) s else s
       else start_st d s
   end.
+
+(* start presses while a handler holds the player_adding queue (game.py creates the player when the request is
+   approved and posts player_added only when the queue is released): n presses inside one event-queue run are
+   approved against the undeducted balance exactly like a burst; then [w] ms pass (expiry delays may fire); then the
+   queues are released in order and every player_added deducts one price, floored at 0 — if credit play is still
+   on.  In attract one game is started and its first player is the pending one. *)
+Definition pay_only (d : dcfg) (s : st) : st :=
+  let s2 := with_audit s 0 0 1 0 0 in touch d (set_credit s2 (Z.max 0 (units s2 - d_upg d)) (tc s2)) (now s).
+
+Definition held_approve (d : dcfg) (s : st) (n : nat) : st * nat :=
+  match n with
+  | O => (s, O)
+  | S _ =>
+      if ingame s then
+        if game_full s then (s, O)
+        else if fp s || affordable d s then (iter_st n join_game s, n) else (s, O)
+      else
+        if fp s then (join_game (set_game s true 0 0 0), 1%nat)
+        else if affordable d s
+             then (join_game (set_timers (set_credit (set_game s true 0 0 0) (units s) 0) None None), 1%nat)
+             else (s, O)
+  end.
+
+Definition held_st (d : dcfg) (s : st) (n : nat) (w : Z) : st :=
+  let s1 := fst (held_approve d s n) in
+  let s2 := advance d s1 (now s1 + w) in
+  if fp s2 then s2 else iter_st (snd (held_approve d s n)) (pay_only d) s2.
 
 Definition apply_op (d : dcfg) (s : st) (o : op) : st :=
   match o with
@@ -273,10 +395,12 @@ Definition apply_op (d : dcfg) (s : st) (o : op) : st :=
       else end_game d s
   | EndGame => if ingame s then end_game d s else s
   | Wait _ => s
-  | ToggleFree => set_fp s (negb (fp s))
+  | ToggleFree => if fp s then enable_credit d s else set_fp s true
   | EnableFree => set_fp s true
-  | EnableCredit => set_fp s false
-  | ResetCredits => clear_all s
+  | EnableCredit => enable_credit d s
+  | ResetCredits => touch d (clear_all s) (now s)
+  | Reboot off => power_on d (Some s) (now s + off)
+  | StartHeld n w => held_st d s n w
   | ResetEarnings => set_audit s 0 0 0 0 0
   end.
 
@@ -299,6 +423,7 @@ Definition apply_ev (d : dcfg) (s : st) (o : op) : evs :=
       end
   | Start => start_ev d s 1
   | StartBurst n => match n with O => no_evs | S _ => start_ev d s (Z.of_nat n) end    (* every refused press posts *)
+  | StartHeld n _ => match n with O => no_evs | S _ => start_ev d s (Z.of_nat n) end
   | _ => no_evs
   end.
 
@@ -313,6 +438,7 @@ Definition observe (d : dcfg) (s : st) (e : evs) : list Z :=
     (if fp s then 0 else units s / d_upg d); (if fp s then 0 else units s mod d_upg d); (if fp s then 0 else d_upg d);
     b2z (ingame s); npl s; cpl s; cball s; tc s;
     a_coins s; a_earn s; a_paid s; a_svc s; a_evaw s;
+    b2z (on_disk s); match pexp s with Some x => x | None => -1 end;
     e_not_enough e; e_max e; e_added e; e_accepted e ].
 
 Fixpoint run_from (d : dcfg) (s : st) (ops : list op) : list (list Z) :=
@@ -332,7 +458,8 @@ Definition final (d : dcfg) (s : st) (ops : list op) : st := fold_left (step d) 
 (* correspondence entry point: first row = derived constants, then one row per operation *)
 Definition run (i : cfg * list op) : list (list Z) :=
   let d := derive (fst i) in
-  ([d_cu d; d_upg d; d_W d] ++ d_table d) :: run_from d (init d) (snd i).
+  ([Qnum (d_cuq d); Zpos (Qden (d_cuq d)); d_upg d; d_W d] ++ d_table d)
+  :: run_from d (init d) (snd i).
 
 Definition out_eqb : list (list Z) -> list (list Z) -> bool := zss_eqb.
 
